@@ -363,6 +363,9 @@ def run_failpoints(ctx, env):
 
 
 # =========================================================================== (2) interleavings
+REFUSED_IN_THREAD = [0]
+
+
 def thread_programs(rng, store):
     """2-3 threads x 1-3 operations with pairwise distinct node ids; returns (programs, expectation builder)."""
     nthreads = rng.choice([2, 2, 2, 3])
@@ -382,6 +385,10 @@ def thread_programs(rng, store):
             else:
                 ops.append({'op': 'reimport', 'g': 'G1' if store == 'shared' else f'R{t}{k}',
                             'desc': small(rng, 2, prefix=f't{t}r{k}n')})
+        if rng.random() < 0.3:
+            # an import the store refuses (a node without NodeID): the exception path of the critical section, pre-empted like any other
+            ops.insert(rng.randrange(len(ops) + 1), {'op': 'import_missing_nodeid', 'g': f'F{t}', 'desc': small(rng, 3, prefix=f't{t}f'),
+                                                     'drop': rng.randrange(1, 3)})
         progs.append(ops)
     return progs
 
@@ -427,6 +434,13 @@ def run_schedule(ctx, env, store, progs, plan=None, chooser=None):
                     blank_ids.append((op['g'], imp.storage.add_blank_node_to_graph(op['g'], Class='NetworkNode', NodeID=op['nid'])))
                 elif o == 'reimport':
                     imp.import_graph_from_string(graph_string=graphml_of(op['desc']), graph_id=op['g'])
+                elif o == 'import_missing_nodeid':
+                    try:
+                        do_seq(imp, cls, op)
+                    except RuntimeError:
+                        raise                       # a lock error is an outcome to judge
+                    except Exception:
+                        REFUSED_IN_THREAD[0] += 1   # the refusal itself is expected
                 else:
                     do_seq(imp, cls, op)
         return run
@@ -586,6 +600,7 @@ def _run_workload(ctx):
             run_sequential(ctx, env, ctx.pick(150, 1500))
             run_failpoints(ctx, env)
             explore(ctx, env, ctx.pick(6, 60))
+            ctx.count('sched:refused-imports-inside-threads', REFUSED_IN_THREAD[0])
         finally:
             sched.Scheduler.block_on = orig_block
         ctx.count('invariant-hook-evaluations', 0)
